@@ -29,6 +29,7 @@ func main() {
 		quietStderr()
 		c := newCtx(prop, dir, tier, seed)
 		R = c.R
+		round4(c)
 		g(c)
 		c.Finish()
 	default:
